@@ -204,6 +204,10 @@ func runLayoutCase(c *hx.Ctx, k kase, d ldoc, r *hx.Rng, tie bool) {
 
 func runLayoutFixed(c *hx.Ctx, k kase, d ldoc) {
 	runLayout(c, k, d, layCfg{"default", rag.DefaultChunkerConfig(), 0}, true)
+	// every heading level opens a section
+	cc := rag.DefaultChunkerConfig()
+	cc.MinHeadingLevel = 6
+	runLayout(c, k, d, layCfg{"all-levels", cc, 1}, true)
 }
 
 // ---- tabula.Open(f).Chunks() ---------------------------------------------------------
